@@ -1,5 +1,7 @@
 """C17: which attribute the API position comes from, the line lookup of get_line_code, the sort
-key of Script._names, fingerprints of the modelled functions."""
+key of Script._names, fingerprints of the modelled functions; where Script._names takes its names
+from (callee, is it memoised, does it hand out a one-shot iterator) and the tables of everything
+jedi/api/ remembers between two calls (memo decorators, `self.x = ...`) with the same question."""
 import ast
 from translator.extract import Src, TieBroken, u, lean_list, lean_bool, lean_str
 
@@ -48,3 +50,257 @@ def generate(repo, g):
                  (classes, 'Name.is_definition'), (api, 'Script._names'), (api, 'Script.get_names'),
                  (helpers, 'get_module_names')]:
         g.fp(s, d)
+    _api_memo(repo, g)
+
+
+# --------------------------------------------------------------------------- what the API remembers
+#
+# A Script / Name object is asked many things during its life.  Whatever one of their methods
+# remembers between two calls (memo decorators, attributes) must be readable any number of times:
+# a remembered `filter(...)` / `map(...)` / generator is empty for the second reader, and the name
+# enumeration of the second call reports nothing at all.
+
+MEMO_DECORATORS = ['memoize_method', 'time_cache', 'signature_time_cache', '_memoize_default',
+                   'inference_state_function_cache', 'inference_state_method_cache',
+                   'inference_state_as_method_param_cache', 'inference_state_method_generator_cache',
+                   'lru_cache', 'cache', 'cached_property']
+GENERATOR_AWARE = ['inference_state_method_generator_cache', 'signature_time_cache']
+MATERIALISERS = ['to_list', 'to_tuple', 'iterator_to_value_set']
+LAZY_BUILTINS = {'map', 'filter', 'zip', 'iter', 'reversed', 'enumerate', 'chain', 'itertools.chain',
+                 'chain.from_iterable', 'itertools.chain.from_iterable', 'islice', 'itertools.islice'}
+CONTAINERS = {'list', 'tuple', 'sorted', 'set', 'frozenset', 'dict', 'ValueSet'}
+
+
+def _dec_names(fn):
+    out = []
+    for d in fn.decorator_list:
+        d = d.func if isinstance(d, ast.Call) else d
+        out.append(u(d).split('.')[-1])
+    return out
+
+
+def _own_nodes(fn):
+    """nodes of a function body without those of nested functions / lambdas / classes"""
+    stack = list(fn.body)
+    while stack:
+        n = stack.pop()
+        if isinstance(n, (ast.FunctionDef, ast.AsyncFunctionDef, ast.Lambda, ast.ClassDef)):
+            continue
+        yield n
+        stack.extend(ast.iter_child_nodes(n))
+
+
+class _Index:
+    """every module of jedi/ (python `ast` only): top-level functions, classes with their methods,
+    and what the imported names stand for - enough to follow `helpers.f(...)`, `f(...)`, `self.m(...)`"""
+
+    def __init__(self, repo):
+        import os
+        self.mods = {}
+        for dp, dn, fs in sorted(os.walk(os.path.join(repo, 'jedi'))):
+            dn.sort()
+            if 'third_party' in dp.split(os.sep):
+                continue
+            for f in sorted(fs):
+                if not f.endswith('.py'):
+                    continue
+                rel = os.path.relpath(os.path.join(dp, f), repo).replace(os.sep, '/')
+                dotted = rel[:-3].replace('/', '.')
+                if dotted.endswith('.__init__'):
+                    dotted = dotted[:-9]
+                src = Src(repo, rel)
+                m = {'rel': rel, 'dotted': dotted, 'pkg': dotted if f == '__init__.py' else dotted.rsplit('.', 1)[0],
+                     'funcs': {}, 'classes': {}, 'bases': {}, 'imports': {}, 'tree': src.tree}
+                for n in src.tree.body:
+                    if isinstance(n, (ast.FunctionDef, ast.AsyncFunctionDef)):
+                        m['funcs'][n.name] = n
+                    elif isinstance(n, ast.ClassDef):
+                        m['classes'][n.name] = {x.name: x for x in n.body
+                                                if isinstance(x, (ast.FunctionDef, ast.AsyncFunctionDef))}
+                        m['bases'][n.name] = [u(b).split('.')[-1] for b in n.bases]
+                for n in ast.walk(src.tree):
+                    if isinstance(n, ast.Import):
+                        for a in n.names:
+                            if a.asname:
+                                m['imports'][a.asname] = ('module', a.name)
+                            else:
+                                m['imports'][a.name.split('.')[0]] = ('module', a.name.split('.')[0])
+                    elif isinstance(n, ast.ImportFrom):
+                        base = n.module or ''
+                        if n.level:
+                            parts = m['pkg'].split('.')
+                            parts = parts[:len(parts) - (n.level - 1)]
+                            base = '.'.join(parts + ([n.module] if n.module else []))
+                        for a in n.names:
+                            m['imports'][a.asname or a.name] = ('object', base, a.name)
+                self.mods[dotted] = m
+
+    def module_of(self, m, local):
+        """the module a local name stands for, or None"""
+        imp = m['imports'].get(local)
+        if imp is None:
+            return None
+        if imp[0] == 'module':
+            return self.mods.get(imp[1])
+        return self.mods.get(imp[1] + '.' + imp[2])
+
+    def method(self, m, cls, name, depth=0):
+        if cls is None or depth > 6:
+            return None
+        meths = m['classes'].get(cls)
+        if meths is None:
+            return None
+        if name in meths:
+            return (m, cls, meths[name])
+        for b in m['bases'].get(cls, []):
+            r = self.method(m, b, name, depth + 1)
+            if r is not None:
+                return r
+        return None
+
+    def callee(self, m, cls, func):
+        """(module, class | None, function node) a call expression refers to, or None"""
+        if isinstance(func, ast.Name):
+            if func.id in m['funcs']:
+                return (m, None, m['funcs'][func.id])
+            imp = m['imports'].get(func.id)
+            if imp is not None and imp[0] == 'object':
+                tm = self.mods.get(imp[1])
+                if tm is not None and imp[2] in tm['funcs']:
+                    return (tm, None, tm['funcs'][imp[2]])
+            return None
+        if isinstance(func, ast.Attribute) and isinstance(func.value, ast.Name):
+            if func.value.id in ('self', 'cls'):
+                return self.method(m, cls, func.attr)
+            tm = self.module_of(m, func.value.id)
+            if tm is not None and func.attr in tm['funcs']:
+                return (tm, None, tm['funcs'][func.attr])
+        return None
+
+    # --- does an expression / a call hand out an iterator that can be read once
+
+    def lazy(self, m, cls, fn, v, seen):
+        if isinstance(v, ast.GeneratorExp):
+            return True
+        if isinstance(v, ast.IfExp):
+            return self.lazy(m, cls, fn, v.body, seen) or self.lazy(m, cls, fn, v.orelse, seen)
+        if isinstance(v, ast.BoolOp):
+            return any(self.lazy(m, cls, fn, x, seen) for x in v.values)
+        if isinstance(v, ast.Call):
+            name = u(v.func)
+            if name in LAZY_BUILTINS:
+                return True
+            if name in CONTAINERS:
+                return False
+            c = self.callee(m, cls, v.func)
+            return c is not None and self.call_one_shot(c, seen)
+        if isinstance(v, ast.Name) and fn is not None:
+            key = ('local', m['rel'], fn.lineno, v.id)
+            if key in seen:
+                return False
+            seen = seen | {key}
+            for n in _own_nodes(fn):
+                if isinstance(n, ast.Assign) and any(isinstance(t, ast.Name) and t.id == v.id for t in n.targets) \
+                        and self.lazy(m, cls, fn, n.value, seen):
+                    return True
+        return False
+
+    def raw_one_shot(self, c, seen=None):
+        """calling the UNDECORATED function hands out a one-shot iterator"""
+        m, cls, fn = c
+        seen = set() if seen is None else seen
+        key = (m['rel'], cls, fn.name, fn.lineno)
+        if key in seen:
+            return False
+        seen = seen | {key}
+        for n in _own_nodes(fn):
+            if isinstance(n, (ast.Yield, ast.YieldFrom)):
+                return True
+        for n in _own_nodes(fn):
+            if isinstance(n, ast.Return) and n.value is not None and self.lazy(m, cls, fn, n.value, seen):
+                return True
+        return False
+
+    def call_one_shot(self, c, seen=None):
+        """... the function as its callers see it (through its decorators, innermost first)"""
+        one = self.raw_one_shot(c, seen)
+        for d in reversed(_dec_names(c[2])):
+            if d in MATERIALISERS:
+                one = False
+            elif d == 'inference_state_method_generator_cache':
+                one = True
+            elif d in ('property', 'cached_property'):
+                return False           # an attribute, not a call
+        return one
+
+
+def _api_memo(repo, g):
+    idx = _Index(repo)
+    api_mods = [m for d, m in sorted(idx.mods.items()) if d == 'jedi.api' or d.startswith('jedi.api.')]
+    if len(api_mods) < 8:
+        raise TieBroken('jedi/api: only %d modules found' % len(api_mods))
+    rows, attrs = [], []
+
+    def visit(m, node, prefix, cls):
+        for n in ast.iter_child_nodes(node):
+            if isinstance(n, (ast.FunctionDef, ast.AsyncFunctionDef)):
+                decs = _dec_names(n)
+                q = '%s:%s' % (m['rel'], '.'.join(prefix + [n.name]))
+                if any(d in MEMO_DECORATORS for d in decs):
+                    rows.append((q, decs, idx.raw_one_shot((m, cls, n))))
+                # what the method keeps in an attribute of its object
+                for a in _own_nodes(n):
+                    if not isinstance(a, ast.Assign):
+                        continue
+                    one = idx.lazy(m, cls, n, a.value, set())
+                    if not (one or isinstance(a.value, (ast.Call, ast.GeneratorExp, ast.IfExp, ast.BoolOp))):
+                        continue
+                    for t in a.targets:
+                        if isinstance(t, ast.Attribute) and isinstance(t.value, ast.Name) and t.value.id == 'self':
+                            row = ('%s:self.%s' % (q, t.attr), ['attribute'], one)
+                            if row not in attrs:
+                                attrs.append(row)
+                visit(m, n, prefix + [n.name], cls)
+            elif isinstance(n, ast.ClassDef):
+                visit(m, n, prefix + [n.name], n.name)
+            else:
+                visit(m, n, prefix, cls)
+    for m in api_mods:
+        visit(m, m['tree'], [], None)
+    names = [r[0] for r in rows]
+    for must in ('jedi/api/__init__.py:Script._get_module', 'jedi/api/classes.py:BaseName._get_module_context',
+                 'jedi/api/classes.py:Name.defined_names'):
+        if must not in names:
+            raise TieBroken('jedi/api: the walk over memoised methods no longer finds %s' % must, repr(names))
+
+    def table(rs):
+        return '[\n  ' + ',\n  '.join('(%s, %s, %s)' % (lean_str(r[0]), lean_list(r[1]), lean_bool(r[2]))
+                                      for r in rs) + ']'
+    g.define('apiMemoTable', 'List (String × List String × Bool)', table(rows),
+             'every function in jedi/api/ under a memo decorator: (file:qualname, decorators outermost first, does '
+             'calling the undecorated function hand out a one-shot iterator - generator function, generator '
+             'expression, map / filter / zip / chain object, directly or through the jedi functions it returns)')
+    g.define('apiAttributeTable', 'List (String × List String × Bool)', table(attrs),
+             'every `self.x = <call | generator expression | conditional | anything one-shot>` in jedi/api/: (file:method:self.x, '
+             '["attribute"], is the stored value a one-shot iterator)')
+
+    # --- where Script._names takes the names from
+    api = Src(repo, 'jedi/api/__init__.py')
+    m = idx.mods['jedi.api']
+    fn = api.find('Script._names')
+    comps = [n for n in _own_nodes(fn) if isinstance(n, ast.ListComp)]
+    if len(comps) != 1 or len(comps[0].generators) != 1 or not isinstance(comps[0].generators[0].iter, ast.Call) \
+            or u(comps[0].elt) != 'module_context.create_name(name)':
+        raise TieBroken('api/__init__.py: Script._names is no longer one list comprehension over one call', u(fn))
+    call = comps[0].generators[0].iter
+    c = idx.callee(m, 'Script', call.func)
+    if c is None:
+        raise TieBroken('api/__init__.py: Script._names iterates over a call the translator cannot follow', u(call.func))
+    cm, ccls, cfn = c
+    memoised = any(d in MEMO_DECORATORS and d not in GENERATOR_AWARE for d in _dec_names(cfn))
+    g.define('namesSource', 'String', lean_str('%s:%s' % (cm['rel'], (ccls + '.' if ccls else '') + cfn.name)),
+             'jedi/api/__init__.py:Script._names `for name in <call>`')
+    g.define('namesSourceMemoised', 'Bool', lean_bool(memoised),
+             'is that callee under a decorator that remembers what it returned')
+    g.define('namesSourceOneShot', 'Bool', lean_bool(idx.call_one_shot(c)),
+             'does the callee hand out a one-shot iterator (jedi/api/helpers.py:get_module_names returns filter(...))')
